@@ -36,6 +36,7 @@ Inductive ccase :=
 | CTemplate (e : option env) (r : string)                 (* rendered {{streamflow_environment}} *)
 | CFrame (marker : string) (evs : list ev) (r : result) (unread : nat)   (* BaseShell._read_with_output on a scripted reader *)
 | CSeq (cs : list cmd) (r : list (result * nat))          (* BaseConnector.run sequence: results and start counts *)
+| CSeqState (cwd0 : string) (cs : list scmd) (r : list (string * N))   (* run() sequence with cd / export / exit / probes *)
 | CRunAny (q : req) (marker : string) (resp : list ev) (fresh : outcome)
           (r : outcome) (starts : nat) (v : via).          (* one BaseConnector.run with job_name / stdin / capture_output *)
 
@@ -58,6 +59,9 @@ Definition check_case (c : ccase) : bool :=
       let (r', rest) := read_with_output m EmptyString evs in
       result_eqb r' r && Nat.eqb (length rest) unread
   | CSeq cs r => list_eqb (pair_eqb result_eqb Nat.eqb) (run_all false new_shell cs) r
+  | CSeqState cwd0 cs r =>
+      let st0 := {| s_cwd := cwd0; s_env := []; s_alive := true |} in
+      list_eqb (pair_eqb String.eqb N.eqb) (run_state Wrapped st0 st0 cs) r
   | CRunAny q m resp fresh r n v =>
       match run_any false new_shell q m resp fresh with
       | (r', _, n', v') => outcome_eqb r' r && Nat.eqb n' n && via_eqb v' v
